@@ -205,6 +205,46 @@ theorem C02_completion_then_lost_finisheds {mx Ta Ti Tn : Nat} {src : Bytes} {m 
   obtain ⟨pa, q1, q2, q3, q4, q5⟩ := c2 pf hpf
   exact ⟨pa, q1, q2, by rw [q3, f1], q4, by rw [q5, hcond]⟩
 
+/-! ### the premises are satisfiable -/
+
+/-- the file-data PDU carrying what `exRL` is missing -/
+abbrev exLast : Pdu := ⟨default, .fileData 4 [5, 6]⟩
+
+example : (finRounds (recvStep (recvStep exRL 10 (.pdu exLast)) 11 .send) [1000000011, 2000000100]).2.length = 2 ∧
+    ∀ pf ∈ (finRounds (recvStep (recvStep exRL 10 (.pdu exLast)) 11 .send) [1000000011, 2000000100]).2,
+      ∃ pa, (sendStep (sendStep exS4 2000000200 (.pdu pf)) 2000000200 .send).sent = some pa ∧
+        (sendStep (sendStep exS4 2000000200 (.pdu pf)) 2000000200 .send).condition = .NoError := by
+  have hmd : exRL.md = some { srcName := [115], dstName := [100], fileSize := 6, closure := false, cksumType := .Null, requests := [] } := by
+    rfl
+  have hsegs : exRL.segs = [(0, 4)] := by decide
+  have htmp : exRL.tempFile = some [1, 2, 3, 4] := by decide
+  have hri : RI cfgL.max (cfgL.ta * 1000000000) (cfgL.ti * 1000000000) (cfgL.tn * 1000000000) exRL :=
+    ri_run _ _ (ri_new cfgL [([], .dir)] 0 (by decide) (by decide) (by decide) ⟨by decide, by decide, by decide⟩)
+  have t1 : Truthful Send.exFile 4 [5, 6] := ⟨by decide, fun i hi => by
+    have : i = 0 ∨ i = 1 := by simp only [List.length_cons, List.length_nil] at hi; omega
+    rcases this with rfl | rfl <;> rfl⟩
+  have hdata : DataOk Send.exFile exRL := by
+    refine ⟨?_, ?_, ?_, ?_⟩
+    · rw [hsegs]; exact ⟨fun sg hsg => by simp at hsg; subst hsg; decide, by simp⟩
+    · rw [hsegs]; intro sg hsg; simp at hsg; subst hsg; decide
+    · rw [htmp]; decide
+    · rw [hsegs, htmp]
+      intro x hx
+      obtain ⟨sg, hsg, h1, h2⟩ := hx
+      simp at hsg; subst hsg
+      have : x = 0 ∨ x = 1 ∨ x = 2 ∨ x = 3 := by simp only at h1 h2; omega
+      rcases this with rfl | rfl | rfl | rfl <;> rfl
+  have hfg : FG (recvStep exRL 10 (.pdu exLast)) := ⟨by decide, by decide, by decide, by decide⟩
+  obtain ⟨c1, c2⟩ := C02_completion_then_lost_finisheds (mx := 4) (Ta := 1000000000) (Ti := 3000000000) (Tn := 1000000000)
+    (src := Send.exFile) (fs0 := exRL.fs) exS4
+    ⟨by decide, by decide, by decide, hmd, by decide, by decide, by decide, hdata, rfl⟩
+    ⟨by decide, by decide, hri.inv.rt, by decide, by decide⟩ 10 11 0 2000000200 2000000300 exLast 4 [5, 6]
+    [1000000011, 2000000100] (by decide) (by decide) (by decide) rfl t1 (by decide) (by decide) hfg (by decide)
+    ⟨by decide, by decide, by decide, by decide, by decide, by decide, by decide, by decide, by decide, by decide, trivial⟩
+  refine ⟨c1, fun pf hpf => ?_⟩
+  obtain ⟨pa, q1, _, q3, _⟩ := c2 pf hpf
+  exact ⟨pa, q1, q3⟩
+
 end Cfdp.Loop
 
 #print axioms Cfdp.Loop.completion_enters_wait
